@@ -24,6 +24,7 @@ pub mod c10;
 pub mod c10_pool;
 pub mod c11;
 pub mod c11_conn;
+pub mod c11_plan;
 pub mod c12;
 pub mod c13;
 pub mod c13_lbscript;
